@@ -123,6 +123,14 @@ def split_src(events):
 
 def body(ctx):
     ctx.model("BoolAlgebra.tla", timeout=900)
+    # kernel refinement of the EMULATED integer comparisons (sse2 64-bit lt from 32-bit pieces, unsigned through the sign flip, avx512f 16-bit lanes
+    # inside 32-bit words) for every operand pair of the reduced width; the two seeded variants (R4-C13-2, R4-C03-2) must be refuted by the model
+    ctx.model("K_Compare.tla", timeout=600)
+    for cfg in ("K_CompareNoMask.cfg", "K_CompareNoShift.cfg"):
+        r = vf.tlc_model("K_Compare.tla", cfg, timeout=600)
+        ctx.cov["model_runs"].append(dict(cfg=cfg + " (regression of the model: must be violated)", ok=not r["ok"], distinct=r["distinct"], generated=r["generated"], wall_s=round(r["wall"], 1)))
+        if r["ok"]:
+            raise vf.InfraError("%s is no longer violated: the model lost its teeth" % cfg)
     plan = lanes.replay_plan(ctx.replay) if ctx.replay else make_plan(ctx)
     ctx.log("plan: %d lines" % len(plan))
     events, plan = lanes.record(ctx, "bool", plan, "c03")
